@@ -182,6 +182,25 @@ def run(tier, argv):
             bad.append(f"raised {type(ex_).__name__}: {str(ex_).splitlines()[0][:140] if str(ex_) else ''}")
         if bad:
             chk.violation(ck, "; ".join(bad[:3]), {"dist": name})
+    # batched parameters passed directly: every row of a logits matrix is its own categorical (softmax over the LAST axis)
+    ck = "sampler|categorical|batched-logits"
+    chk.case(ck)
+    try:
+        logits = jnp.log(jnp.asarray([[4.0, 1.0, 1.0], [1.0, 1.0, 2.0]]))
+        xs = np.asarray(seed(lambda: D.categorical.sample(logits, sample_shape=(n,)))(jax.random.fold_in(key, 9001)))
+        bad = []
+        if xs.shape != (n, 2):
+            bad.append(f"shape {xs.shape}, expected {(n, 2)}")
+        else:
+            for r, probs in enumerate([[4 / 6, 1 / 6, 1 / 6], [1 / 4, 1 / 4, 1 / 2]]):
+                for k, pk in enumerate(probs):
+                    c = int(np.sum(xs[:, r] == k))
+                    if binom_p(c, n, pk) > 6.5:
+                        bad.append(f"row {r}: P(X = {k}) observed {c / n:.4f}, documented softmax {pk:.4f}")
+        if bad:
+            chk.violation(ck, "; ".join(bad[:3]), {})
+    except Exception as ex_:
+        chk.violation(ck, f"raised {type(ex_).__name__}: {str(ex_).splitlines()[0][:140] if str(ex_) else ''}", {})
     chk.cov["rule"] = ("log densities: every row of the Dists.tla table (all 24 exported distributions, 1-3 exactly representable parameter/value "
                        "points each, positional and keyword conventions) through logpdf / assess / modular_vmap / jit; samplers: one parameter set per "
                        "distribution, fixed keys, exact shape and dtype laws, 6.5-sigma screens of pmf values or exact quantile probabilities")
